@@ -698,7 +698,8 @@ func (fr *Frame) builtin(b *ssa.BasicBlock, idx int, ins ssa.Instruction, bi *ss
 			if _, ok := types.Unalias(cc.Args[0].Type()).Underlying().(*types.Map); ok {
 				r := fr.define(res, ite(eq(args[0].S, "0"), "0", u.mapLen(st, args[0].S)))
 				if !fr.dry {
-					u.assert("(>= " + r.S + " 0)")
+					// a map cannot hold more entries than the address space has bytes
+					u.assert("(and (>= " + r.S + " 0) (<= " + r.S + " 140737488355328))")
 				}
 			} else {
 				fr.vals[res] = fr.freshVal(res.Type(), fr.prefix+res.Name())
@@ -913,7 +914,17 @@ func (fr *Frame) loopHeader(b *ssa.BasicBlock, li *loopInfo, entryReach string, 
 			invs = append(invs, res)
 		}
 	}
+	for _, inv := range invs {
+		if inv.clause != nil && inv.clause.Assumed {
+			env := fr.loopEnv(b, li, entry, entryVals)
+			u.note("assumed at the head of loop " + fmt.Sprint(li.ordinal) + " (definition, not proved): " + inv.text)
+			u.assert(implies(entryReach, inv.eval(env)))
+		}
+	}
 	for k, inv := range invs {
+		if inv.clause != nil && inv.clause.Assumed {
+			continue
+		}
 		env := fr.loopEnv(b, li, entry, entryVals)
 		f := inv.eval(env)
 		name := fmt.Sprintf("%s#loop-entry:%d:%s", u.Name, li.ordinal, inv.id(k))
@@ -1044,6 +1055,9 @@ func (fr *Frame) checkLatches() {
 				}
 			}
 			for k, inv := range li.invs {
+				if inv.clause != nil && inv.clause.Assumed {
+					continue
+				}
 				env := fr.loopEnv(b, li, st, latchVals)
 				f := inv.eval(env)
 				name := fmt.Sprintf("%s#loop-preserve:%d:%s", u.Name, li.ordinal, inv.id(k))
